@@ -745,6 +745,8 @@ def _sb_unchanged_except(eng, st, x, *names):
                 continue
             seen.add(fn)
             key = "%s.%s" % (cname, fn)
+            if key in getattr(eng.reg, "auto_keys", ()):
+                continue
             cur = eng.heap_arr(st, key, ty)
             prev = old.heap.get(key)
             if prev is None:
@@ -761,7 +763,7 @@ def _sb_heap_unchanged(eng, st, *excluded):
     r = z3.Int("hu_r")
     for key, arr in st.heap.items():
         base = old.heap.get(key)
-        if base is None or arr.eq(base) or key in excl:
+        if base is None or arr.eq(base) or key in excl or key in getattr(eng.reg, "auto_keys", ()):
             continue
         conj.append(z3.ForAll([r], z3.Implies(z3.And(0 < r, r < eng.A0), z3.Select(arr, r) == z3.Select(base, r))))
     return mk_bool(z3.And(*conj) if conj else z3.BoolVal(True))
@@ -1811,6 +1813,11 @@ def havoc_paths(eng, paths, env, st):
             key = "%s.%s" % (dc, fn)
             arr = eng.heap_arr(st, key, ty)
             st.heap[key] = z3.Store(arr, o.t, S.fresh("hv_" + fn, S.sort_of(ty)))
+    # fields the contracts do not know (auto-declared diagnostic fields): no frame condition speaks about them, so every
+    # callee / loop body may have written them
+    for key in getattr(eng.reg, "auto_keys", ()):
+        if key in st.heap:
+            st.heap[key] = S.fresh("Ha_" + key, st.heap[key].sort())
 
 
 def apply_contract(eng, c, f, recv, args, kwargs, st):
